@@ -24,9 +24,12 @@ pub enum Status {
     ExportsMissing,
     /// the path of the library file exists but is a directory: it cannot be read
     IsDirectory,
+    /// balanced text whose body holds a form that is not a well-formed expression or definition
+    MalformedForm,
 }
 
-pub const FILE_STATUSES: [Status; 11] = [
+pub const FILE_STATUSES: [Status; 12] = [
+    Status::MalformedForm,
     Status::IsDirectory,
     Status::ExportsMissing,
     Status::Healthy,
@@ -81,6 +84,7 @@ fn extra_export(g: &Graph, i: usize) -> String {
 fn body_text(g: &Graph, i: usize) -> String {
     match g.status[i] {
         Status::BodyFault => format!("(define v{} (no-such-procedure {}))", i, i),
+        Status::MalformedForm => format!("(define v{} {}) {}", i, 100 + i, if i % 2 == 0 { "(define)" } else { "(if)" }),
         // (odd i: the name of a macro private to another library, used as an operator: an unbound variable whatever was
         // read before)
         Status::UsesUnimported if i % 2 == 1 => format!("(define v{} (mac{} 7))", i, (i + 1) % g.n.max(2)),
@@ -114,7 +118,7 @@ fn lib_text(g: &Graph, i: usize, name_override: Option<&str>) -> String {
 fn file_bytes(g: &Graph, i: usize) -> Option<Vec<u8>> {
     match g.status[i] {
         Status::Missing | Status::IsDirectory => None,
-        Status::Healthy | Status::BodyFault | Status::UsesUnimported | Status::ExportsMissing => Some(lib_text(g, i, None).into_bytes()),
+        Status::Healthy | Status::BodyFault | Status::UsesUnimported | Status::ExportsMissing | Status::MalformedForm => Some(lib_text(g, i, None).into_bytes()),
         Status::SecondInFile => Some(format!("(define-library (g decoy{}) (export d) (begin (define d 0)))\n{}", i, lib_text(g, i, None)).into_bytes()),
         Status::WrongName => Some(lib_text(g, i, Some("(g other)")).into_bytes()),
         Status::Unbalanced => {
@@ -172,7 +176,7 @@ pub fn acceptable(g: &Graph, root: usize) -> Vec<&'static str> {
                 Status::Healthy | Status::SecondInFile => continue,
                 Status::Missing | Status::WrongName => "Logic::LibraryNotFound",
                 Status::BodyFault | Status::UsesUnimported | Status::ExportsMissing => "Logic::UnboundedSymbol",
-                Status::Unbalanced => "Syntax",
+                Status::Unbalanced | Status::MalformedForm => "Syntax",
                 Status::NotUtf8 | Status::NotUtf8Late | Status::IsDirectory => "IO",
             };
             if !out.contains(&c) {
@@ -261,6 +265,16 @@ fn run_history(g: &Graph, dir: Option<&PathBuf>, history: &[usize]) -> Result<Ve
                             }
                         }
                     }
+                }
+            }
+            // half of the graphs: the program has already imported a library that binds the very names the "exports
+            // missing" libraries claim to export (a library sees its own imports and definitions only)
+            if g.wrap % 2 == 1 {
+                let donor = "(define-library (g donor) (export nothing0 nothing1 nothing2 nothing3) (begin (define nothing0 0) (define nothing1 1) (define nothing2 2) (define nothing3 3)))";
+                let name = LibraryName(vec![LibraryNameElement::Identifier("g".into()), LibraryNameElement::Identifier("donor".into())]);
+                if let Ok(f) = LibraryFactory::from_char_stream(&name, donor.chars()) {
+                    s.it.register_library_factory(f);
+                    let _ = guarded(|| s.it.eval("(import (g donor))".chars()));
                 }
             }
             let mut out = vec![];
@@ -666,7 +680,7 @@ pub fn run(ctx: &Ctx) {
     ctx.set_rule(
         "every directed graph (self-loops allowed) on 1-2 libraries (thorough: 3, strided) x every assignment of node \
          status (files: healthy / missing / body faults at load / file defines another name / unbalanced / not UTF-8 / \
-         body uses the export of a library it does not import / exports a name it does not have / the file's path is a directory / a healthy definition that is the second one in its file / non-UTF-8 bytes on a later line; registered sources: healthy / missing / body fault / uses \
+         body uses the export of a library it does not import / exports a name it does not have / the file's path is a directory / a malformed form in a balanced body / a healthy definition that is the second one in its file / non-UTF-8 bytes on a later line; registered sources: healthy / missing / body fault / uses \
          unimported) x every history of 1-3 import attempts on one interpreter. \
          Edges (and the program's own import) are written as plain, prefix, only or rename import sets, in one import declaration or in one declaration per edge, the last of them after a first (begin ...) of the library body. \
          Oracle computed from the graph alone: success iff everything reachable is healthy and no cycle is reachable, a \
